@@ -21,6 +21,7 @@ import fnmatch
 from vlib import q, fx
 from vlib.fx import P, K, O, L, R, U, A
 from vlib.fxmodel import make_fx, model_obj, effect_sites, check_find_path_anchor
+from vlib.pat import Pat, returned
 from vlib.front import unparse, dotted, const_value, AnchorMissing
 
 M = 'phylib/io/model.py'
@@ -212,11 +213,26 @@ def t1_agreement(ctx):
             for k in c_.keywords:
                 if isinstance(k.value, ast.Call) and k.value.args:
                     read[roles_r.get(unparse(k.value.args[0]))] = k.arg
-    want = {'_phy_spikes_subset.spikes.npy': ('spike_ids', 'spike_ids'), '_phy_spikes_subset.channels.npy': ('spike_channels', 'spike_channels'),
-            '_phy_spikes_subset.waveforms.npy': ('waveforms', 'waveforms')}
-    ok = all(saved.get(f_) == w and read.get(f_) == r for f_, (w, r) in want.items())
-    ctx.check(ok, 'C10.T1', lw, 'subset store roles', 'each subset-store file is written from and read into the same role (spike ids / channels / waveforms)',
-              'subset store roles disagree: written %s, read %s' % (saved, read))
+    # what the saved locals ARE: the selector result (spike ids) and the per-spike channel rows handed to the export
+    exs = [c_ for c_ in sw.calls() if dotted(c_.func) == 'export_waveforms' and len(c_.args) >= 4]
+    ch_local = unparse(exs[0].args[3]) if exs else None
+    id_local = None
+    for a in sw.nodes(ast.Assign):
+        if isinstance(a.value, ast.Call) and isinstance(a.value.func, ast.Name) and isinstance(a.targets[0], ast.Name):
+            d_ = sw.unique_def(a.value.func.id)
+            if isinstance(d_, ast.Call) and dotted(d_.func) == 'SpikeSelector':
+                id_local = a.targets[0].id
+    role_of = {id_local: 'spike_ids', ch_local: 'spike_channels', 'waveforms': 'waveforms'}
+    saved_roles = {f_: role_of.get(v_, v_) for f_, v_ in saved.items()}
+    want = {'_phy_spikes_subset.spikes.npy': 'spike_ids', '_phy_spikes_subset.channels.npy': 'spike_channels', '_phy_spikes_subset.waveforms.npy': 'waveforms'}
+    ok = all(saved_roles.get(f_) == r and read.get(f_) == r for f_, r in want.items())
+    crossed = set(saved_roles) >= set(want) and set(read) >= set(want) and all(v in want.values() for v in list(saved_roles.values()) + list(read.values())) and not ok
+    if ok:
+        ctx.holds('C10.T1', lw, 'each subset-store file is written from and read into the same role (spike ids / channels / waveforms)', 'subset store roles')
+    elif crossed:
+        ctx.violated('C10.T1', lw, 'subset store roles', 'subset store roles disagree: written %s, read %s' % (saved_roles, read))
+    else:
+        ctx.undecided('C10.T1', lw, 'roles of the subset-store files not recognised (written %s, read %s)' % (saved_roles, read))
     # all or none
     guard = [i for i in lw.nodes(ast.If) if 'exists()' in unparse(i.test)]
     ok = bool(guard) and unparse(guard[0].test).count('exists()') == 3 and ' or ' in unparse(guard[0].test) and unparse(guard[0].test).count('not ') == 3
@@ -261,12 +277,37 @@ def p1_d1(ctx):
     ctx.check(bool(c) and unparse(c[0].args[1]) == sm.params[1], 'C10.D1', sm, c[0] if c else 'save_metadata', 'the field name is the column header', 'the column header is not the field name')
     # override semantics in load_metadata / _load_metadata
     ldm = repo.func(M, 'load_metadata')
-    st = [a for a in ldm.nodes(ast.Assign) if isinstance(a.targets[0], ast.Subscript) and isinstance(a.targets[0].value, ast.Subscript)]
-    ok = any(unparse(a.targets[0]).replace(' ', '') == 'out[field][cluster_id]' and unparse(a.value) == 'value' for a in st)
-    ctx.check(ok, 'C10.D1', ldm, st[0] if st else 'load_metadata', 'rows are stored as out[field][cluster_id] = value (last row wins)',
-              'load_metadata does not store rows as out[field][cluster_id] = value')
-    skip = any(isinstance(n, ast.Compare) and unparse(n).replace(' ', '') == "field!='cluster_id'" for n in ast.walk(ldm.node))
-    ctx.check(skip, 'C10.D1', ldm, 'load_metadata', 'the key column itself is not reported as a field', 'the cluster_id column is reported as a metadata field')
+    PL = Pat(ldm)
+    cid = PL.stmt("V_cid = V_row['cluster_id']")
+    inner = [f for f in ldm.nodes(ast.For) if isinstance(f.iter, ast.Call) and q.method_name(f.iter) == 'items' and isinstance(f.target, ast.Tuple) and len(f.target.elts) == 2]
+    if cid is None or not inner:
+        ctx.undecided('C10.D1', ldm, 'row loop of load_metadata (cluster id + items of the row) not recognised')
+    else:
+        fld, val = (unparse(x) for x in inner[0].target.elts)
+        st = PL.stmt('V_out[%s][V_cid] = %s' % (fld, val), within=inner[0])
+        st_bad = None
+        if st is None:
+            st_bad = PL.stmt('V_out[V_cid][%s] = %s' % (fld, val), within=inner[0]) or PL.stmt('V_out[%s][V_cid] = E_other' % fld, within=inner[0]) or \
+                PL.stmt('V_out[%s].setdefault(V_cid, %s)' % (fld, val), within=inner[0])
+        first_wins = [i for i in ast.walk(inner[0]) if isinstance(i, ast.If) and st is not None and q.contains(i, st) and
+                      any(Pat(ldm, PL.b).m('V_cid not in V_out[%s]' % fld, n) for n in ast.walk(i.test))]
+        if st is not None and not first_wins:
+            ctx.holds('C10.D1', ldm, 'rows are stored as out[field][cluster_id] = value (last row wins)', st)
+        elif st_bad is not None or first_wins:
+            ctx.violated('C10.D1', ldm, st_bad or first_wins[0], 'load_metadata does not store rows as out[field][cluster_id] = value with the last row winning (`%s`)' %
+                         unparse(st_bad or first_wins[0].test)[:80])
+        else:
+            ctx.undecided('C10.D1', ldm, 'store of a metadata cell not recognised')
+        skip = [n for n in ast.walk(inner[0]) if isinstance(n, ast.Compare) and Pat().m("%s != 'cluster_id'" % fld, n)] + \
+            [n for n in ast.walk(inner[0]) if isinstance(n, ast.Compare) and Pat().m("%s == 'cluster_id'" % fld, n) and
+             any(isinstance(x, ast.Continue) for i in ast.walk(inner[0]) if isinstance(i, ast.If) and i.test is n for x in i.body)]
+        popped = [c for c in ldm.calls() if q.method_name(c) == 'pop' and c.args and const_value(c.args[0]) == 'cluster_id']
+        if skip or popped:
+            ctx.holds('C10.D1', ldm, 'the key column itself is not reported as a field', (skip or popped)[0])
+        elif st is not None:
+            ctx.violated('C10.D1', ldm, st, 'the cluster_id column is reported as a metadata field (no test excludes the key column)')
+        else:
+            ctx.undecided('C10.D1', ldm, 'exclusion of the key column not recognised')
 
 
 def run(ctx):
